@@ -582,6 +582,8 @@ class RulesWorld(World):
             if isinstance(c, Agg) and c.ty == "EvalContext":
                 rs, cache, facts = c.fields.get(0), c.fields.get(1), c.fields.get(2)
                 cm = ex.read_ref(cache) if isinstance(cache, Ref) else None
+                if isinstance(cm, Agg) and cm.ty in ("Mutex", "RefCell", "Cell") and 0 in cm.fields:
+                    cm = cm.fields[0]          # the per-call cache behind a lock / cell is still one cache per call
                 self.ctx_seen.append((isinstance(rs, Ref) and rs.cell is self.ruleset_cell and not rs.path,
                                       isinstance(facts, Ref) and facts.cell is self.facts_cell and not facts.path,
                                       id(cache.cell) if isinstance(cache, Ref) else None,
